@@ -116,9 +116,15 @@ def _post(snap, result, exc, args, kwargs):
         for ai, a in enumerate(r.atoms):
             index.setdefault(id(a), (ri, ai))
     got = []
+    misattached = None
     for (r1, a1), (r2, a2), occ in result:
         k1, k2 = index.get(id(a1)), index.get(id(a2))
         got.append(frozenset((k1, k2)))
+        # every listed atom is listed with the residue it belongs to
+        for rr, aa, kk in ((r1, a1, k1), (r2, a2, k2)):
+            if kk is not None and residues[kk[0]] is not rr and not any(x is aa for x in rr.atoms):
+                misattached = {"atom": aa.name, "listed-with": str(rr), "belongs-to": str(residues[kk[0]])}
+    rec.check("clashes.atoms-listed-with-their-own-residue", misattached is None, lambda: {"options": opts, "ctx": ctx, "info": misattached})
     gs = set(got)
     rec.check("clashes.each-once", len(gs) == len(got), lambda: {"options": opts, "ctx": ctx, "listed": len(got), "distinct": len(gs)})
     sure, fuzzy = reference(residues, *opts)
@@ -177,8 +183,11 @@ def cases(shard, nshards, seed, tier):
             continue
         rng = random.Random(f"{seed}:C17:v:{i}")
         fn = rng.choice(small)
-        kind = rng.choice(["scale", "scale", "jitter", "occ"])
-        if kind == "scale":
+        kind = rng.choice(["scale", "scale", "jitter", "occ", "order"])
+        if kind == "order":
+            # residues listed 3'->5' / chains in another order: list order is not ascending (chain, number) order
+            ops = [{"op": "scale", "f": rng.uniform(0.72, 0.9)}, rng.choice([{"op": "reverse-res"}, {"op": "chain-order", "seed": f"{seed}:{i}", "mode": "reverse"}])]
+        elif kind == "scale":
             ops = [{"op": "scale", "f": rng.uniform(0.72, 1.0)}]
         elif kind == "jitter":
             ops = [{"op": "jitter", "seed": f"{seed}:{i}", "sigma": rng.choice([0.2, 0.5])}, {"op": "scale", "f": rng.uniform(0.8, 1.0)}]
